@@ -8,6 +8,7 @@ import (
 	"time"
 
 	"github.com/pion/dtls/v3/internal/zzverif/lib/pbt"
+	"github.com/pion/dtls/v3/internal/zzverif/lib/ref"
 	"github.com/pion/dtls/v3/internal/zzverif/lib/scen"
 	"pgregory.net/rapid"
 )
@@ -35,6 +36,11 @@ type Case struct {
 	FromSrv bool      `json:"fromsrv,omitempty"`
 	Sizes   []int     `json:"sizes"`
 	Forg    []Forgery `json:"forg"`
+	// Resumed (DTLS 1.2): both sides keep session stores (which keep the slices they are given); a first
+	// connection is established and closed on both sides, the session under attack is the resumed one
+	Resumed bool `json:"resumed,omitempty"`
+	// FixedRandom: both sides are configured with a deterministic hello random generator
+	FixedRandom bool `json:"fixedrandom,omitempty"`
 }
 
 var allSuites = []uint16{
@@ -57,6 +63,7 @@ func epsFor(c *Case) (cl, sv scen.EP) {
 	}
 	cl.CID, sv.CID = c.CIDC, c.CIDS
 	cl.Padding, sv.Padding = c.Pad, c.Pad
+	cl.FixedRandom, sv.FixedRandom = c.FixedRandom, c.FixedRandom
 
 	return cl, sv
 }
@@ -83,11 +90,33 @@ type session struct {
 	rcv    *scen.Side
 	recs   []held
 	cidLen int // length of the connection ID the receiver expects on inbound records
+	env    *scen.Env
 }
 
-func setup(c *Case, r *pbt.R) *session {
+// setup establishes a session. With shared != nil the session stores of an earlier setup are reused, so that a
+// resumed session is a second resumption of the SAME stored session (same master secret).
+func setup(c *Case, r *pbt.R, shared *scen.Env) *session {
 	cEP, sEP := epsFor(c)
 	env := scen.NewEnv()
+	if c.Resumed && c.Suite>>8 != 0x13 {
+		cEP.Store, sEP.Store = "cs", "ss"
+	}
+	if c.Resumed && c.Suite>>8 != 0x13 && shared != nil {
+		env.Stores = shared.Stores
+		r.Class("second-resumption-of-the-same-session")
+	} else if c.Resumed && c.Suite>>8 != 0x13 {
+		p0 := scen.NewPair(env, &cEP, &sEP)
+		p0.Handshake(10 * time.Minute)
+		ok0 := p0.C.OK() && p0.S.OK()
+		p0.Close()
+		scen.Settle()
+		if !ok0 {
+			r.Failf("C05|harness|handshake", "first connection failed (suite %04x)", c.Suite)
+
+			return nil
+		}
+		r.Class("resumed-after-close")
+	}
 	p := scen.NewPair(env, &cEP, &sEP)
 	p.Handshake(10 * time.Minute)
 	if !(p.C.OK() && p.S.OK()) {
@@ -96,7 +125,7 @@ func setup(c *Case, r *pbt.R) *session {
 
 		return nil
 	}
-	s := &session{p: p, snd: p.C, rcv: p.S}
+	s := &session{p: p, snd: p.C, rcv: p.S, env: env}
 	if c.FromSrv {
 		s.snd, s.rcv = p.S, p.C
 	}
@@ -266,6 +295,27 @@ func (s *session) expand(f Forgery, other *session) []forged {
 				d := []byte{b[0], 0xfe, 0xfd, byte(ep >> 8), byte(ep), byte(seq >> 40), byte(seq >> 32), byte(seq >> 24), byte(seq >> 16), byte(seq >> 8), byte(seq), byte((len(b) - 1) >> 8), byte(len(b) - 1)}
 				d = append(d, b[1:]...)
 				add(d, "legacy-frame-plaintext", fmt.Sprintf("legacy-t%d-e%d", b[0], ep))
+			}
+		}
+	case "public-keys":
+		// what an outsider can compute: record keys derived from an ALL-ZERO master secret and the two hello
+		// randoms, which cross the network in clear (DTLS 1.2, legacy framing)
+		cr, sr, suite, ok := scen.HelloRandoms(s.p)
+		if !ok || lay.unified || s.cidLen > 0 {
+			break
+		}
+		dec := ref.NewDecoder12(suite, make([]byte, 48), cr, sr)
+		if dec == nil {
+			break
+		}
+		k := dec.SW
+		if s.snd.Name == "C" {
+			k = dec.CW
+		}
+		for i, seq := range []uint64{binary.BigEndian.Uint64(append([]byte{0, 0}, raw[5:11]...)), 1<<30 + uint64(f.A%1000)} { //nolint:gosec
+			h := ref.Hdr12{Type: 23, Version: [2]byte{0xfe, 0xfd}, Epoch: 1, Seq: seq}
+			if d, err := ref.Seal12(k, h, []byte("forged-from-public-values"), bytes.Repeat([]byte{7}, 16)); err == nil {
+				add(d, "public-keys", fmt.Sprintf("zero-master-%d", i))
 			}
 		}
 	case "trunc":
@@ -444,7 +494,7 @@ func (s *session) fieldMutations(raw []byte, lay layout, f Forgery, add func([]b
 
 func run(c Case, r *pbt.R) {
 	berr := pbt.Bubble(func() {
-		s := setup(&c, r)
+		s := setup(&c, r, nil)
 		if s == nil {
 			return
 		}
@@ -452,7 +502,7 @@ func run(c Case, r *pbt.R) {
 		var other *session
 		for _, f := range c.Forg {
 			if f.Kind == "splice" {
-				other = setup(&c, r)
+				other = setup(&c, r, s.env)
 				if other == nil {
 					return
 				}
@@ -573,10 +623,12 @@ func genCase(t *rapid.T) Case {
 		c.Pad = rapid.IntRange(1, 30).Draw(t, "pad")
 	}
 	c.Sizes = genSizes(t)
+	c.Resumed = rapid.IntRange(0, 3).Draw(t, "resumed") == 0
+	c.FixedRandom = rapid.IntRange(0, 3).Draw(t, "fixedrandom") == 0
 	nf := rapid.IntRange(2, 10).Draw(t, "nf")
 	for i := 0; i < nf; i++ {
 		f := Forgery{Rec: rapid.IntRange(0, len(c.Sizes)-1).Draw(t, "rec")}
-		f.Kind = rapid.SampledFrom([]string{"bit", "bit", "sweep", "trunc", "extend", "field", "field", "field", "splice", "recombine", "trunc-all", "legacy-frame"}).Draw(t, "kind")
+		f.Kind = rapid.SampledFrom([]string{"bit", "bit", "sweep", "trunc", "extend", "field", "field", "field", "splice", "recombine", "trunc-all", "legacy-frame", "public-keys"}).Draw(t, "kind")
 		f.A = rapid.IntRange(0, 1<<20).Draw(t, "a")
 		f.B = rapid.IntRange(0, 255).Draw(t, "b")
 		c.Forg = append(c.Forg, f)
@@ -603,6 +655,16 @@ func enumGrid(_ string, yield func(Case) bool) {
 				}
 				if !yield(c) {
 					return
+				}
+				if cid == 0 && su>>8 != 0x13 {
+					// the resumed session after both ends closed the first one, attacked with keys from public values
+					c2 := Case{Suite: su, FromSrv: fromSrv, Sizes: []int{20, 33}, Resumed: true, FixedRandom: true}
+					for rec := 0; rec < 2; rec++ {
+						c2.Forg = append(c2.Forg, Forgery{Rec: rec, Kind: "public-keys", A: rec}, Forgery{Rec: rec, Kind: "field", A: rec, B: 1}, Forgery{Rec: rec, Kind: "splice"})
+					}
+					if !yield(c2) {
+						return
+					}
 				}
 			}
 		}
